@@ -159,7 +159,7 @@ def reused_predicates(ctx):
         stopf = lambda n: cur["idmap"][id(n)] in cur["stop"]  # noqa: E731
         filtf = lambda n: cur["idmap"][id(n)] not in cur["hidden"]  # noqa: E731
         rounds = []
-        for nodes, par, ch, case in TR.evolving_universe(ctx, rng, fam, k, rng.randint(3, 10)):
+        for nodes, par, ch, case in TR.evolving_universe(ctx, rng, fam, k, rng.randint(3, 10), fault_rate=(0.35 if h % 2 else 0.0)):
             cur["idmap"] = {id(o): i for i, o in enumerate(nodes)}
             for _ in range(2):
                 cur["stop"] = frozenset(x for x in range(k) if rng.random() < rng.choice([0.0, 0.15, 0.35]))
